@@ -88,7 +88,7 @@ class CreditsDriver(MachineDriver):
         self.game_stopped_at = self.loop.time()
 
     def ops(self):
-        out = [["coin", 0], ["coin", 1], ["service"], ["award"], ["start"], ["toggle"]]
+        out = [["coin", 0], ["coin", 1], ["service"], ["award"], ["start"], ["toggle"], ["slam"]]
         if self.m.game:
             out.append(["end_game"])
         return out
@@ -165,6 +165,13 @@ class CreditsDriver(MachineDriver):
             if self.frac_at is not None or self.exp_at is not None or self.m.game:
                 self.timer_ambiguous = True
             self.stat("toggles")
+        elif op[0] == "slam":
+            # a slam tilt clears all credits and the pricing window, in credit play and in free play alike
+            self.m.events.post("slam_tilt")
+            self.units = 0
+            self.cum = 0
+            self.cum_ambiguous = False
+            self.stat("slam_tilts")
         elif op[0] == "end_game":
             self.game_stopped_at = None
             fakegame.end_game(self.sys)
@@ -177,6 +184,12 @@ class CreditsDriver(MachineDriver):
         now = self.loop.time()
         got = self.m.variables.get_machine_var("credit_units") or 0
         sig_op = choice if isinstance(choice, str) else choice[0]
+        last = getattr(self, "last_got", None)
+        self.last_got = got
+        if choice == "T" and last is not None and got > last:
+            # judged in every mode (credit play, free play, game running): time alone never creates credits
+            self.violate("credits-appear-with-time", "the balance rose from %d to %d credit units while only time passed "
+                         "(free play: %s, game: %s)" % (last, got, self.free, bool(self.m.game)))
         if choice == "T":
             # expirations.  The statement fixes them only for credit play outside a game; what a deadline does that
             # passes while free play is on or a game is running is not judged (either outcome is accepted).
@@ -264,6 +277,9 @@ class CreditsDriver(MachineDriver):
         now = self.loop.time()
         g = self.m.game
         return (self.units, self.m.variables.get_machine_var("credit_units"), self.m.variables.get_machine_var("credits_string"),
+                # the numbers kept for the display are implementation state too (they go stale in free play)
+                tuple(self.m.variables.get_machine_var(v) for v in ("credits_whole_num", "credits_numerator", "credits_denominator",
+                                                                    "credits_value")),
                 self.cum % self.p.window, self.free, g.num_players if g else None,
                 None if self.frac_at is None else r6(self.frac_at - now),
                 None if self.exp_at is None else r6(self.exp_at - now), self.rel_timers(), self.modes_fp(), self.task_fp(),
